@@ -58,6 +58,14 @@ impl FileLock {
     /// On error, the error message will contain the path.
     pub fn new(path: &Path) -> io::Result<FileLock> {
         let path_buf = path.to_path_buf();
+        // Opening a symbolic link would lock the file it points to, or fail if that file
+        // doesn't exist any more, but it is the link itself that is going to be removed or replaced.
+        if fs::symlink_metadata(&path_buf)?.file_type().is_symlink() {
+            return Err(io::Error::new(
+                io::ErrorKind::Unsupported,
+                format!("Cannot lock a symbolic link {}", path.display()),
+            ));
+        }
         let file = fs::OpenOptions::new()
             .read(false)
             .write(true)
